@@ -178,40 +178,53 @@ def shard(ctx):
     tasks = [(info, pidx) for pidx in range(P) for info in host]
     mine = [t for j, t in enumerate(tasks) if j % ctx.nshards == ctx.shard]
     batch_n = int(ctx.params.get("batch", 8))
-    for b0 in range(0, len(mine), batch_n):
-        chunk = mine[b0 : b0 + batch_n]
+    batch_cases = int(ctx.params.get("batch_cases", 128))
+    items = []
+    for info, pidx in mine:
+        key = f"instr|{info.name}|"
+        # deterministic per (VERIF_SEED, instruction, placement): independent of the distribution over shards
+        rng = random.Random(f"{ctx.seed}:{info.name}:{pidx}")
+        try:
+            pl = W.gen_placement(info, rng, pidx)
+            src, meta = W.build_wrapper(info, pl, harness)
+        except W.Unwrappable as e:
+            ctx.stat(key + "status|unwrappable")
+            ctx.stat(key + "why|" + _sanitize(e))
+            continue
+        try:
+            mod = load_program(src, ctx.scratch, tag="c14")
+            proc = getattr(mod, meta["proc"])
+        except Exception as e:
+            # exo refuses the wrapper: either the generator is wrong or exo is conservative; never a violation
+            ctx.stat(key + "status|exo_reject")
+            ctx.stat(key + "why|" + _sanitize(f"{type(e).__name__}: {e}"))
+            continue
+        ins = W.gen_inputs(info, meta, rng, nsets)
+        prep = W.Prepared(proc, [x[0] for x in ins])
+        items.append((info, pidx, pl, src, meta, ins, prep))
+    # one gcc build per chunk: at most batch_n wrappers and about batch_cases embedded operand sets
+    # (the compile time of the generated driver grows with the number of embedded cases)
+    chunks, cur, ncur = [], [], 0
+    for it in items:
+        n = len(it[-1].ins)
+        if cur and (len(cur) >= batch_n or ncur + n > batch_cases):
+            chunks.append(cur)
+            cur, ncur = [], 0
+        cur.append(it)
+        ncur += n
+    if cur:
+        chunks.append(cur)
+    for b0, chunk in enumerate(chunks):
         if ctx.out_of_time():
-            for info, pidx in chunk:
-                ctx.stat(f"instr|{info.name}|status|budget")
+            for it in chunk:
+                ctx.stat(f"instr|{it[0].name}|status|budget")
                 ctx.inconclusive("budget")
             continue
-        items = []
-        for info, pidx in chunk:
-            key = f"instr|{info.name}|"
-            # deterministic per (VERIF_SEED, instruction, placement): independent of the distribution over shards
-            rng = random.Random(f"{ctx.seed}:{info.name}:{pidx}")
-            try:
-                pl = W.gen_placement(info, rng, pidx)
-                src, meta = W.build_wrapper(info, pl, harness)
-            except W.Unwrappable as e:
-                ctx.stat(key + "status|unwrappable")
-                ctx.stat(key + "why|" + _sanitize(e))
-                continue
-            try:
-                mod = load_program(src, ctx.scratch, tag="c14")
-                proc = getattr(mod, meta["proc"])
-            except Exception as e:
-                # exo refuses the wrapper: either the generator is wrong or exo is conservative; never a violation
-                ctx.stat(key + "status|exo_reject")
-                ctx.stat(key + "why|" + _sanitize(f"{type(e).__name__}: {e}"))
-                continue
-            ins = W.gen_inputs(info, meta, rng, nsets)
-            prep = W.Prepared(proc, [x[0] for x in ins])
-            items.append((info, pidx, pl, src, meta, ins, prep))
-        nb = W.execute_batch([it[-1] for it in items], ctx.scratch / f"b{b0}", max_rebuilds=1)
+        nb = W.execute_batch([it[-1] for it in chunk], ctx.scratch / f"b{b0}", max_rebuilds=1)
         ctx.stat("builds", nb)
-        for info, pidx, pl, src, meta, ins, prep in items:
+        for info, pidx, pl, src, meta, ins, prep in chunk:
             _report(ctx, W, harness, info, pidx, pl, src, meta, ins, prep.res)
+            prep.ins = None  # free the interpreter states
 
 
 def _report(ctx, W, harness, info, pidx, pl, src, meta, ins, r):
